@@ -12,14 +12,15 @@ from hypothesis import strategies as st
 KINDS = ("func", "class", "lambda", "comp")
 ROLES = {
     "module": ("none", "read", "assign", "assign_noread", "aug", "walrus", "for", "def", "classbind",
-               "import", "fromimport", "assign_read_before", "destructure", "withcomp"),
+               "import", "fromimport", "assign_read_before", "destructure", "withcomp",
+               "cond_untaken", "cond_taken", "loop_zero"),
     "func": ("none", "read", "assign", "assign_noread", "assign_nl", "aug", "walrus", "for", "global_assign",
              "global_read", "global_aug", "nonlocal_assign", "nonlocal_read", "nonlocal_aug", "def", "classbind",
              "import", "fromimport", "param", "param_nl", "param_default", "kwonly", "vararg", "destructure",
              "walrus_nonlocal", "for_nonlocal", "param_same", "kwonly_same"),
     "class": ("none", "read", "assign", "assign_noread", "aug", "for", "global_assign", "global_read",
               "nonlocal_assign", "nonlocal_read", "def", "classbind", "import", "assign_read_before",
-              "destructure"),
+              "destructure", "cond_untaken", "cond_taken", "loop_zero"),
     "lambda": ("none", "read", "param", "param_default_same", "walrus", "lam_vararg", "lam_kwarg", "lam_kwonly",
                "lam_posonly", "lam_kwonly_same", "walrus_in_comp"),
     "comp": ("none", "read", "target", "target_tuple", "walrus", "iter_read", "cond_read"),
@@ -80,6 +81,19 @@ def render_stmt_scope(node, ind, r):
         a("L(%d, 'rb', %s)" % (i, x))
         a("%s = %s" % (x, r.val()))
         a("L(%d, 'a', %s)" % (i, x))
+    elif role == "cond_untaken":
+        # a binding statement that does NOT run, then a read by a later statement of the same scope
+        a("if L(%s, 'cu0', 0):" % i)
+        a("    %s = %s" % (x, r.val()))
+        a("L(%s, 'cu', %s)" % (i, x))
+    elif role == "cond_taken":
+        a("if not L(%s, 'ct0', 0):" % i)
+        a("    %s = %s" % (x, r.val()))
+        a("L(%s, 'ct', %s)" % (i, x))
+    elif role == "loop_zero":
+        a("for %s in []:" % x)
+        a("    pass")
+        a("L(%s, 'lz', %s)" % (i, x))
     elif role == "aug":
         a("%s += 1000" % x)
         a("L(%d, 'g', %s)" % (i, x))
@@ -154,7 +168,8 @@ def render_stmt_scope(node, ind, r):
         L += render_child(ch, ind, r)
     if role in ("assign", "assign_nl", "aug", "walrus", "global_assign", "nonlocal_assign", "param", "param_nl",
                 "assign_read_before", "read", "global_read", "nonlocal_read", "global_aug", "nonlocal_aug",
-                "for", "destructure", "walrus_nonlocal", "param_default", "kwonly", "param_same", "kwonly_same"):
+                "for", "destructure", "walrus_nonlocal", "param_default", "kwonly", "param_same", "kwonly_same",
+                "cond_untaken", "cond_taken", "loop_zero"):
         a("L(%d, 'end', %s)" % (i, x))
     if not L:
         a("pass")
@@ -252,7 +267,8 @@ def render(tree, init=True, second=None, falsy=False):
 
 END_ROLES = ("assign", "assign_nl", "aug", "walrus", "global_assign", "nonlocal_assign", "param", "param_nl",
              "assign_read_before", "read", "global_read", "nonlocal_read", "global_aug", "nonlocal_aug",
-             "for", "destructure", "walrus_nonlocal", "param_default", "kwonly", "param_same", "kwonly_same")
+             "for", "destructure", "walrus_nonlocal", "param_default", "kwonly", "param_same", "kwonly_same",
+             "cond_untaken", "cond_taken", "loop_zero")
 # roles the second name may play (no parameter roles: the parameter list belongs to the first name)
 OVERLAY_ROLES = ("none", "read", "assign", "assign_nl", "aug", "nonlocal_assign", "nonlocal_read", "nonlocal_aug",
                  "global_assign", "global_read", "walrus", "for")
